@@ -5,7 +5,7 @@ PROP = {
     "coq_targets": ["theories/Isa/C02Check", "theories/Isa/MipsAll", "theories/Isa/MipsRefuted", "theories/Isa/PpcProofs"],
     "n": {"quick": 2400, "thorough": 60000},
     "theorems": ["mips_plain_forms_correct", "mips_single_block_correct", "mips_control_correct", "mips_branch_block_correct",
-                 "mips_fields_okb_ok", "mips_branch_okb_ok", "mips_nodup_temps_distinct", "ppc_forms_correct", "ppc_fields_okb_ok",
+                 "mips_fields_okb_ok", "mips_branch_okb_ok", "mips_nodup_temps_distinct", "ppc_forms_correct", "ppc_fields_okb_ok", "mips_fields_okb_complete", "mips_branch_okb_complete", "ppc_fields_okb_complete",
                  "mips_jr_target_read_after_slot_refuted", "mips_unaligned_lw_refuted"],
     "tie_name": "mirror_block (decoded words) = IL dumped by translator::mips::{Mips,Mipsel}::translate_block",
     "rule": "case i: i mod 4 = 3 is a PowerPC case, the others MIPS. MIPS case = form (k mod #forms) x variant (k div #forms): the variant picks "
